@@ -16,7 +16,7 @@ pub struct Mls {
     pub shape: String,
 }
 
-const BASES: &[&str] = &["", "  ", "    ", "      ", "\t", "\t\t", " \t", "\u{3000}", "  \u{b}", "        ", "          ", "                                                                                "];
+const BASES: &[&str] = &["", "  ", "    ", "      ", "\t", "\t\t", " \t", "\u{3000}", "  \u{b}", "        ", "          ", "\u{a0}", "  \u{2003}", " \u{a0} ", "                                                                                "];
 const CONTENTS: &[&str] = &["text", "select *", "it's", "x", "  more indented", "\ttabbed", "a 'quoted' b", "ünï", "trailing  ", "trailing\t", "''", "end;", "// c", "{ c }", "  ", "\t", "   \t ", "\u{a0}", "a\u{a0}b", "\u{2003}\u{2003}", "\u{85}"];
 
 /// append a line ending; a lone CR directly followed by LF would read as one CRLF, so an LF
@@ -42,7 +42,9 @@ pub fn gen(rng: &mut Rng) -> Mls {
     let n = rng.range(0, 5);
     let mut text = q.clone();
     let mut value_lines = vec![];
-    let mut conforming = true;
+    // an "indentation" holding a character that is not a Delphi blank (NBSP, EM SPACE ...) is text
+    // before the closing quotes: such a literal has no valid closing line and must be left alone
+    let mut conforming = base.chars().all(|c| c <= ' ' || c == '\u{3000}');
     let mut shape = format!("q{quotes} base={:?} n={n}", base);
     for _ in 0..n {
         push_ending(&mut text, rng.pick_str(endings));
